@@ -96,6 +96,7 @@ func (g *gen) genC07impl() {
 		}
 	}
 	c.Tasks = [][]Op{ops}
+	g.holdHandles()
 	c.Profile += fmt.Sprintf("C07 sets=%d", len(sets))
 	if g.chance(0.4) {
 		g.fsFaults(g.opPtrs(), 0.35)
